@@ -1311,7 +1311,7 @@ class tensor:
         if prod(self.shape) != prod(shape):
             assert False, "Reshaping a tensor cannot change number of elements"
 
-        return ttb.tensor(self.data.reshape(shape, order=self.order), shape, copy=False)
+        return ttb.tensor(self.data.reshape(shape, order=self.order), shape, copy=True)
 
     def scale(
         self,
